@@ -7,6 +7,7 @@ import (
 	"hash/fnv"
 	"os"
 	"path/filepath"
+	"regexp"
 	"sort"
 	"strings"
 
@@ -218,7 +219,22 @@ func (e *Engine) ModuleFunctions() []*ssa.Function {
 
 func (e *Engine) qual(p *types.Package) string { return p.Name() }
 
-func (e *Engine) typeStr(t types.Type) string { return types.TypeString(t, e.qual) }
+var aliasRe = regexp.MustCompile(`\b(byte|rune)\b`)
+
+// typeStr names a type for heap classes: the universe aliases byte/rune are identical to uint8/int32 and
+// must share their classes.
+func (e *Engine) typeStr(t types.Type) string {
+	s := types.TypeString(t, e.qual)
+	if strings.Contains(s, "byte") || strings.Contains(s, "rune") {
+		s = aliasRe.ReplaceAllStringFunc(s, func(m string) string {
+			if m == "byte" {
+				return "uint8"
+			}
+			return "int32"
+		})
+	}
+	return s
+}
 
 func isUnsigned(t types.Type) bool {
 	if b, ok := t.Underlying().(*types.Basic); ok {
